@@ -58,6 +58,7 @@ def gate_menu(cx_params):
         ('GlobalPhase', 1, lambda t: cirq.GlobalPhaseGate(D.ph(t)), lambda t: D.global_phase(D.ph(t)), 0),
         ('Diagonal2', 4, lambda a, b, c, d: cirq.DiagonalGate([a, b, c, d]), lambda a, b, c, d: D.diagonal([a, b, c, d]), 2),
         ('MatrixGate', 0, lambda: cirq.MatrixGate(np.kron(cirq.unitary(cirq.H), cirq.unitary(cirq.S))), lambda: np.kron(D.H(1.0), D.Z(0.5)), 2),
+        ('ThreeQubitDiagonal', 4, lambda a, b, c, d: cirq.ThreeQubitDiagonalGate([0.1, b, 0.3, c, 0.7, d, 1.3, a + b]), lambda a, b, c, d: D.diagonal([0.1, b, 0.3, c, 0.7, d, 1.3, a + b]), 3),
     ]
     if hasattr(cirq, 'CCYPowGate'):
         m.append(('CCY', 2, lambda t, s: cirq.CCYPowGate(exponent=t, global_shift=s), D.CCY, 3))
@@ -148,12 +149,27 @@ def obligations(tier):
 
         obs.append(Obligation(f'coherence.{name}', body, twin=lambda cx, b=body: b(cx, wrong=True), desc='unitary/kraus/mixture/has_* of gate, operation and tagged operation agree with the documented matrix'))
 
-    # ---- C: decomposition multiplies back to the matrix ---------------------------------------------
+    # ---- C: decomposition multiplies back to the matrix, on several qubit layouts (adjacency-aware
+    #         decompositions relabel qubits) ---------------------------------------------------------
+    L, G, N = cirq.LineQubit, cirq.GridQubit, cirq.NamedQubit
+    LAYOUTS = {
+        0: [()],
+        1: [(L(0),), (N('a'),)],
+        2: [(L(0), L(1)), (L(1), L(0)), (L(0), L(4))],
+        3: [(L(0), L(1), L(2)), (L(2), L(1), L(0)), (L(1), L(0), L(2)), (L(0), L(2), L(1)), (L(1), L(2), L(0)), (L(2), L(0), L(1)), (L(0), L(1), L(5)),
+            (G(0, 0), G(0, 1), G(1, 0)), (G(0, 1), G(0, 0), G(1, 0)), (N('a'), N('b'), N('c'))],
+    }
     def decomp_body_factory(name, npar, build, doc, k):
         def body(cx, wrong=False):
             ps = _params(cx, npar)
+            lay = LAYOUTS[k]
+            li = cx.choose('layout', len(lay))
+            if li > 0 and name in ('CCZ', 'CCX', 'CCY'):
+                # non-default layouts: global shift fixed to 0 (the shifted, tolerance-band case is
+                # covered on the default layout; keeps the exact-stage queries few)
+                ps = [ps[0], 0.0]
             g = build(*ps)
-            qs = cirq.LineQubit.range(k)
+            qs = list(lay[li])
             ops = cirq.decompose_once(g.on(*qs), default=None)
             if ops is None:
                 cx.note('no decomposition')
@@ -177,6 +193,8 @@ def obligations(tier):
     for name, npar, build, doc, k in MENU:
         if name in ('GlobalPhase', 'Identity2', 'MatrixGate', 'Diagonal2'):
             continue
+        if name == 'ThreeQubitDiagonal':
+            name = 'ThreeQubitDiagonal'
         b = decomp_body_factory(name, npar, build, doc, k)
         obs.append(Obligation(f'decompose.{name}', b, twin=None, opts={'weight': 3}, desc='ordered product of cirq.unitary of the ops returned by cirq.decompose_once equals the documented matrix (exactly, incl. global phase)'))
 
@@ -218,6 +236,34 @@ def obligations(tier):
             cx.close(res, EM.apply_matrix_to_axes(exp, T, list(range(nc + k))), label=f'controlled[{name},{cvn},{how}].apply_unitary')
 
         obs.append(Obligation(f'controlled.{name}', body, twin=lambda cx, b=body: b(cx, wrong=True), opts={'weight': 8}, desc='ControlledGate / controlled_by / ControlledOperation with 7 control-value specs (incl. qutrit and sum-of-values controls): unitary and apply_unitary equal the block matrix on exactly the selected control states'))
+
+    # ---- D2: qudit X / Z powers: in-place kernels, unitary and controlled forms agree -------------------------------
+    def qudit_body(cx, wrong=False):
+        t = cx.real('t', -BOX, BOX)
+        s_ = cx.real('s', -1.0, 1.0)
+        which = cx.choose('gate', 2)
+        d = cx.choose('dim', 2) + 3
+        g = (cirq.XPowGate if which == 0 else cirq.ZPowGate)(exponent=t, global_shift=s_, dimension=d)
+        U = cirq.unitary(g)
+        if wrong:
+            U = perturb(U)
+        lay = cx.choose('layout', 3)
+        shape, axes = [((d,), (0,)), ((2, d), (1,)), ((d, 2), (0,))][lay]
+        T = EM.sym_tensor(cx, shape, 'T')
+        B = EM.sym_tensor(cx, shape, 'B')
+        res = cirq.apply_unitary(g, cirq.ApplyUnitaryArgs(target_tensor=T.copy(), available_buffer=B, axes=axes))
+        cx.close(res, EM.apply_matrix_to_axes(U, T, list(axes)), label=f'qudit apply_unitary dim={d}')
+        # controlled by a qubit: unitary and apply_unitary equal the block matrix built from cirq.unitary(g)
+        cq, tq = cirq.LineQid(0, 2), cirq.LineQid(1, d)
+        cop = g.on(tq).controlled_by(cq)
+        blk = controlled_matrix(U, [2], {(1,)})
+        cx.close(cirq.unitary(cop), blk, label=f'qudit controlled unitary dim={d}')
+        T2 = EM.sym_tensor(cx, (2, d), 'U')
+        B2 = EM.sym_tensor(cx, (2, d), 'V')
+        res2 = cirq.apply_unitary(cop, cirq.ApplyUnitaryArgs(target_tensor=T2.copy(), available_buffer=B2, axes=(0, 1)))
+        cx.close(res2, EM.apply_matrix_to_axes(blk, T2, [0, 1]), label=f'qudit controlled apply_unitary dim={d}')
+
+    obs.append(Obligation('qudit.XZ', qudit_body, twin=lambda cx: qudit_body(cx, wrong=True), opts={'weight': 5}, desc='XPowGate / ZPowGate with dimension 3 and 4, symbolic exponent and global shift: apply_unitary kernels on symbolic qudit tensors, cirq.unitary, and the qubit-controlled operation (unitary and apply_unitary) agree'))
 
     # ---- E: inverse / parallel / circuit-operation wrappers ------------------------------------------
     for name, npar, build, doc, k in [m for m in MENU if m[0] in ('X', 'H', 'CZ', 'ISWAP', 'PhasedXZ', 'FSim', 'CCX')]:
